@@ -136,6 +136,7 @@ type VC struct {
 	absQuant bool // quantifiers over slice indices are rewritten to absolute addresses
 	jsonAx   bool
 	nlet     int
+	tnameAx  bool
 	params   []*Val // entry values of the parameters (for replay)
 }
 
